@@ -147,7 +147,9 @@ theorem assignConnectionCapacityLoop_lt (n : Nat) (s : Streams) : LT [] s (Strea
             rw [isClosed_of_core hsp]; exact ConnWakeP.not_closed_of_streaming hc'
           rw [transitionAfter_noop hnc (fun hb => by rw [resetAt_of_core hsp]; exact hb)]
           refine LT.trans (ks' := []) ?_ (ih _) (fun _ h => h)
-          exact ⟨h1.keys.trans (tryAssignCapacity_lt s1 id).keys, h1.err.trans (tryAssignCapacity_lt s1 id).err,
+          exact ⟨h1.keys.trans (tryAssignCapacity_lt s1 id).keys, (tryAssignCapacity_lt s1 id).ids.trans h1.ids,
+            h1.sid.trans (tryAssignCapacity_lt s1 id).sid, h1.ref.trans (tryAssignCapacity_lt s1 id).ref,
+            h1.err.trans (tryAssignCapacity_lt s1 id).err,
             fun hl hq => (tryAssignCapacity_lt s1 id).ok
               (fun k hk => by rw [List.mem_singleton] at hk; subst hk; exact (qPopCap_live hq heq).2) (h1.ok hl hq)⟩
     · exact .refl _ _
@@ -203,7 +205,8 @@ theorem sendMaybeResetNextStreamId_lt (s : Streams) (id : Nat) : LT [] s (s.send
 /-- a panicking branch behind a light step: fine if it cannot be reached -/
 theorem LT.panic_of {ks : List Nat} {s t : Streams} (m : String) (h : LT ks s t) (hf : LiveAll s ks → NPQ s → False) :
     LT ks s (t.panic m) :=
-  ⟨h.keys.trans (SameKeys.panic' _ _), h.err.trans (panic_errSame _ _), fun hl hq => (hf hl hq).elim⟩
+  ⟨h.keys.trans (SameKeys.panic' _ _), (by rw [panic_store]; exact h.ids), h.sid.trans (.of_store (panic_store _ _)),
+   h.ref.trans (.of_store (panic_store _ _)), h.err.trans (panic_errSame _ _), fun hl hq => (hf hl hq).elim⟩
 
 theorem state_of_core {a b : Stream} (h : coreOf b = coreOf a) : b.state = a.state := by
   unfold coreOf at h
@@ -305,9 +308,8 @@ theorem modStream_lt' (s : Streams) (k : Nat) (f : Stream → Stream) (h : Inert
     have := setStream_lt s k (f st) (by rw [stream_of_get? hst] at h; rw [stream_of_get? hst]; exact h)
     exact this
   · next hn =>
-    refine ⟨SameKeys.panic' _ _, panic_errSame _ _, ?_⟩
-    intro hl _
-    exact absurd (hl k (List.mem_cons_self ..)) (not_live_of_none hn)
+    exact LT.unreachable (panic_store _ _) (panic_errSame _ _)
+      (fun hl _ => absurd (hl k (List.mem_cons_self ..)) (not_live_of_none hn))
 
 /-- an `expect` on a `Result` that is `Ok` in every good state -/
 theorem LT.guard_ok {ks : List Nat} {s : Streams} (r : FlowRes) (m : String) :
@@ -315,7 +317,7 @@ theorem LT.guard_ok {ks : List Nat} {s : Streams} (r : FlowRes) (m : String) :
   intro h
   cases r with
   | ok _ => exact .refl _ _
-  | error e => exact LT.unreachable (SameKeys.panic' _ _) (panic_errSame _ _) (fun hl hq => by have := h hl hq; cases this)
+  | error e => exact LT.unreachable (panic_store _ _) (panic_errSame _ _) (fun hl hq => by have := h hl hq; cases this)
 
 theorem reclaimReservedCapacity_lt (s : Streams) (k : Nat) : LT [k] s (s.reclaimReservedCapacity k) := by
   unfold Streams.reclaimReservedCapacity
